@@ -233,8 +233,24 @@ impl Borrow<Cls> for Key {
         &self.cls
     }
 }
+// while a container is being cloned, clone() must be called on the elements stored in it
+thread_local! { pub static CLONE_WIN: std::cell::Cell<(usize, usize)> = const { std::cell::Cell::new((0, 0)) }; }
+fn in_window(addr: usize, sz: usize) {
+    let (base, size) = CLONE_WIN.with(|w| w.get());
+    if size != 0 && !(addr >= base && addr + sz <= base + size) {
+        fault(format!("CLONE_SELF clone() was called on an object at {:#x} that is not stored in the container being cloned", addr));
+    }
+}
+pub fn windowed<T, R>(c: &T, f: impl FnOnce() -> R) -> R {
+    CLONE_WIN.with(|w| w.set((c as *const T as usize, std::mem::size_of::<T>())));
+    let r = f();
+    CLONE_WIN.with(|w| w.set((0, 0)));
+    r
+}
+
 impl Clone for Key {
     fn clone(&self) -> Key {
+        in_window(self as *const Key as usize, std::mem::size_of::<Key>());
         observe(self.id, self.magic, MAGIC_K, "clone");
         let id = clone_tick(self.id);
         Key { magic: MAGIC_K, id, cls: Cls(self.cls.0) }
@@ -289,6 +305,7 @@ impl PartialEq for Val {
 }
 impl Clone for Val {
     fn clone(&self) -> Val {
+        in_window(self as *const Val as usize, std::mem::size_of::<Val>());
         observe(self.id, self.magic, MAGIC_V, "vclone");
         let id = clone_tick(self.id);
         Val { magic: MAGIC_V, id, dat: self.dat }
